@@ -60,5 +60,27 @@ Proof.
   apply (bit_ops_total_lemma b _ HI).
 Qed.
 
+(* enlarge keeps the representation invariant (sum fits usize), from ANY bitmap that has it - so also after
+   any number of enlarges - and the page count is the rounded-up one *)
+Lemma enlarge_inv_lemma : forall m b add, bm_inv b -> bm_byte_size b + add < W64 ->
+  exists b', bm_enlarge_o m b add = Val b' /\ bm_inv b' /\
+             bm_size b' = div_ceil (bm_byte_size b + add) (bm_ps b) /\
+             N.of_nat (length (bm_words b')) = div_ceil (bm_size b') 64.
+Proof.
+  intros m b add HI Hov. destruct (enlarge_spec m b add HI Hov) as (b' & E & HI' & _ & _ & S & _).
+  exists b'. split; [exact E|]. split; [exact HI'|]. split; [exact S|]. destruct HI' as (L & _). exact L.
+Qed.
+
 Lemma new_inv_lemma : forall bytes ps, 0 < ps -> bytes < W64 -> bm_inv (bm_new bytes ps).
 Proof. exact new_inv. Qed.
+
+(* AtomicBitmap::new followed by enlarge *)
+Lemma new_enlarge_inv_lemma : forall m bytes ps add, 0 < ps -> bytes + add < W64 ->
+  exists b', bm_enlarge_o m (bm_new bytes ps) add = Val b' /\ bm_inv b' /\
+             bm_size b' = div_ceil (bytes + add) ps.
+Proof.
+  intros m bytes ps add Hps Hov.
+  assert (HI : bm_inv (bm_new bytes ps)) by (apply new_inv_lemma; lia).
+  destruct (enlarge_inv_lemma m (bm_new bytes ps) add HI Hov) as (b' & E & HI' & S & _).
+  exists b'. split; [exact E|]. split; [exact HI'|exact S].
+Qed.
